@@ -37,7 +37,7 @@ def _conv_glob(c):
     return dict(_conv=True, root=c["root"], hid=c["hid"], files=_paths(c["files"]), pkgs=_paths(c["pkgs"]),
                 inc=[_path(p) for p in c["inc"]], exc=_paths(c["exc"]), must=_paths(c["must"]),
                 opt=_paths(c["opt"]), panic=c["panic"], algo=_paths(c["algo"]), diffs=_pairs(c["diffs"]),
-                forbid=_pairs(c["forbid"]))
+                forbid=_pairs(c["forbid"]), near=_paths(c.get("near", [])))
 
 
 def _conv_walk(c):
@@ -103,7 +103,12 @@ def _judge_glob(c, o):
     got = set(o["res"])
     for p in sorted(must - got):
         cls = diffs.get((p, "missing"))
-        out.append(("C21 " + cls if cls else "C21 missing selected-file-not-returned", p))
+        if cls:
+            out.append(("C21 " + cls, p))
+        elif p in c.get("near", ()):       # the spec marks Must files whose path merely starts with the text of an exclude entry
+            out.append(("C21 missing exclude-entry-drops-prefix-sharing-sibling", p))
+        else:
+            out.append(("C21 missing selected-file-not-returned", p))
     for p in sorted(got - may):
         cls = diffs.get((p, "extra"))
         if cls:
